@@ -93,11 +93,16 @@ def random_reference(pa, rng, int_grid):
     n_ann = rng.randint(2, 5)
     c = pa.Continuum()
     span = rng.choice([10, 20, 40, 80])
+    hetero = rng.random() < 0.35       # one annotator with much longer units than the others (ground-truth subsets then differ
+    long_one = rng.randrange(n_ann)    # from the whole reference in their average unit length)
     for a in range(n_ann):
         name = f"r{a}"
         c.add_annotator(name)
         for _ in range(rng.randint(0 if a else 1, 5)):
-            if int_grid:
+            if hetero:
+                s = rng.randint(0, span)
+                e = s + (rng.randint(span // 3, span // 2 + 1) if a == long_one else 1)
+            elif int_grid:
                 s = rng.randint(0, span)
                 e = s + rng.randint(1, max(1, span // 4))
             else:
